@@ -12,9 +12,12 @@ import (
 	"encoding/binary"
 	"encoding/hex"
 	"fmt"
+	"net"
 	"net/netip"
 	"sort"
 	"strings"
+	"testing/synctest"
+	"time"
 
 	"github.com/osrg/gobgp/v4/api"
 	"github.com/osrg/gobgp/v4/internal/pkg/table"
@@ -654,4 +657,100 @@ func e2eRxLog(sp *simSpeaker, max int) []string {
 		}
 	}
 	return out
+}
+
+// ---------------------------------------------------------------- a speaker that records raw octets only
+//
+// simSpeaker.reader decodes every message with gobgp's parser in 4-octet-AS mode and DROPS what that parser
+// rejects; on a session without the 4-octet-AS capability gobgp (correctly) writes 2-octet AS_PATHs, which
+// that parser cannot read. The e2e units judge raw octets, so for such sessions they run their own
+// handshake + reader (same steps as simSpeaker.connectPassive / handshake / bringUp) that keeps every message
+// as received (simRxMsg.Msg stays nil).
+
+func e2eRawReader(sp *simSpeaker, c net.Conn, done chan struct{}) {
+	defer sp.readerWG.Done()
+	defer close(done)
+	for {
+		sp.pmu.Lock()
+		for sp.paused {
+			sp.gate.Wait()
+		}
+		sp.pmu.Unlock()
+		hd, body, err := simReadMsgRaw(c)
+		if err != nil {
+			sp.mu.Lock()
+			sp.closedErr = err
+			sp.mu.Unlock()
+			return
+		}
+		raw := append(append([]byte{}, mustSerializeHeader(hd)...), body...)
+		sp.mu.Lock()
+		sp.rx = append(sp.rx, simRxMsg{At: time.Now(), Raw: raw})
+		if hd.Type == bgp.BGP_MSG_UPDATE {
+			sp.nUpdates++
+		}
+		if hd.Type == bgp.BGP_MSG_NOTIFICATION {
+			if m, err := bgp.ParseBGPBody(hd, body); err == nil {
+				sp.notif = m.Body.(*bgp.BGPNotification)
+			}
+		}
+		sp.mu.Unlock()
+	}
+}
+
+func e2eHandshakeRaw(sp *simSpeaker, mine net.Conn) error {
+	sp.mu.Lock()
+	sp.c = mine
+	sp.view = map[simRouteKey]simRoute{}
+	sp.eor = map[bgp.Family]int{}
+	sp.notif = nil
+	sp.closedErr = nil
+	sp.done = make(chan struct{})
+	sp.mu.Unlock()
+	hd, body, err := simReadMsgRaw(mine)
+	if err != nil {
+		return fmt.Errorf("read OPEN: %w", err)
+	}
+	m, err := bgp.ParseBGPBody(hd, body)
+	if err != nil {
+		return fmt.Errorf("parse OPEN: %w", err)
+	}
+	open, ok := m.Body.(*bgp.BGPOpen)
+	if !ok {
+		return fmt.Errorf("expected OPEN, got type %d", hd.Type)
+	}
+	sp.negotiate(open)
+	if err := sp.sendMsg(sp.openMsg()); err != nil {
+		return err
+	}
+	if hd, _, err = simReadMsgRaw(mine); err != nil {
+		return fmt.Errorf("read KEEPALIVE: %w", err)
+	}
+	if hd.Type != bgp.BGP_MSG_KEEPALIVE {
+		return fmt.Errorf("expected KEEPALIVE, got type %d", hd.Type)
+	}
+	if err := sp.sendMsg(bgp.NewBGPKeepAliveMessage()); err != nil {
+		return err
+	}
+	sp.readerWG.Add(1)
+	go e2eRawReader(sp, mine, sp.done)
+	return nil
+}
+
+func e2eBringUpRaw(sp *simSpeaker, maxTries int) error {
+	var err error
+	for i := 0; i < maxTries; i++ {
+		gside, mine := simPipe(simLocalAddr, sp.conf.Addr, sp.conf.Port)
+		sp.n.acceptCh <- gside
+		if err = e2eHandshakeRaw(sp, mine); err == nil {
+			synctest.Wait()
+			if sp.established() {
+				return nil
+			}
+			err = fmt.Errorf("handshake done but session not established")
+		}
+		sp.close()
+		time.Sleep(time.Second)
+	}
+	return fmt.Errorf("e2e: %s did not come up after %d tries: %w", sp.conf.Addr, maxTries, err)
 }
